@@ -280,9 +280,15 @@ AUX_MOLS = {
     "H4_interior_f1": dict(xyz="H4", q=0, spin=0, frozen=[1], uhf=False),
     "LiH_triplet_fo0": dict(xyz="LiH", q=0, spin=2, frozen=[0], uhf=False),
     "H4+_uhf_f": dict(xyz="H4", q=1, spin=1, frozen=[[0], [0]], uhf=True),
+    # closed-shell reference whose lowest M_s = 0 state is a triplet (the sector ground state is not a singlet)
+    "H4sq_singlet_fv3": dict(xyz="H4sq", q=0, spin=0, frozen=[3], uhf=False),
+    # unrestricted reference with an effective core potential (the pseudo-potential is part of the core Hamiltonian)
+    "NaH-_uhf_ecp": dict(xyz="NaH", q=-1, spin=1, frozen=[[4, 5, 6, 7, 8, 9], [4, 5, 6, 7, 8, 9]], uhf=True, basis="lanl2dz", ecp={"Na": "lanl2dz"}),
 }
 _XYZ = {"H4": [("H", (0.0, 0.0, 0.0)), ("H", (0.0, 0.0, 0.9)), ("H", (0.0, 0.8, 1.9)), ("H", (0.3, 0.0, 2.9))],
-        "LiH": [("Li", (0.0, 0.0, 0.0)), ("H", (0.0, 0.0, 1.6))]}
+        "LiH": [("Li", (0.0, 0.0, 0.0)), ("H", (0.0, 0.0, 1.6))],
+        "H4sq": [("H", (0.0, 0.0, 0.0)), ("H", (1.3, 0.0, 0.0)), ("H", (1.3, 1.3, 0.0)), ("H", (0.0, 1.3, 0.0))],
+        "NaH": [("Na", (0.0, 0.0, 0.0)), ("H", (0.0, 0.0, 2.0))]}
 
 
 def h_aux_fci(env, key, mapping, utd):
@@ -296,7 +302,8 @@ def h_aux_fci(env, key, mapping, utd):
     from openfermion import get_sparse_operator
     spec = AUX_MOLS[key]
     with shim.concrete_mode():
-        m = SecondQuantizedMolecule(_XYZ[spec["xyz"]], q=spec["q"], spin=spec["spin"], basis="sto-3g", frozen_orbitals=spec["frozen"], uhf=spec["uhf"])
+        m = SecondQuantizedMolecule(_XYZ[spec["xyz"]], q=spec["q"], spin=spec["spin"], basis=spec.get("basis", "sto-3g"), ecp=spec.get("ecp"),
+                                    frozen_orbitals=spec["frozen"], uhf=spec["uhf"])
         n, ne, sp = m.n_active_sos, m.n_active_electrons, m.active_spin
         qH = fermion_to_qubit_mapping(m.fermionic_hamiltonian, mapping, n_spinorbitals=n, n_electrons=ne, up_then_down=utd, spin=sp)
         nq = n - (2 if mapping.lower() == "scbk" else 0)
